@@ -134,10 +134,12 @@ def _hist_body(rec, ops, pi):
     n = hs.pick(len(ops), 0, MAXOPS)
     seq = [hs.sel(ops[k], NOPS) for k in range(n)]
     pi = hs.sel(pi, NPROBES)
-    for op in seq:
-        _do_op(SHARED, op)
-    got = _outcome(SHARED, PROBES[pi])
     with hs.untraced():
+        # realised: operations and probe are concrete here (nothing symbolic can flow into lark); the solver owns the enumeration of
+        # histories. Under the tracer each Lark.lex()/Lark()/Reconstructor() construction costs 1-2 s.
+        for op in seq:
+            _do_op(SHARED, op)
+        got = _outcome(SHARED, PROBES[pi])
         rec['key'] = [seq, pi]
         rec['replay_args'] = [seq, pi]
         rec['nontrivial'] = n > 0
@@ -320,12 +322,10 @@ def plan(tier, seed):
     quick = tier == 'quick'
     slices = []
     for cfg in ('lalr-ctx-callbacks', 'lalr-basic', 'earley-dynamic', 'earley-basic', 'indent-ctx', 'indent-basic'):
-        if quick and cfg in ('earley-basic', 'indent-basic'):
-            continue
         for pin in range(8):
-            slices.append({'id': 'hist:%s:ops<=%d:first%d' % (cfg, 2 if quick else 3, pin), 'func': 'hist',
-                           'params': {'kind': 'hist', 'cfg': cfg, 'pin': pin, 'maxops': 2 if quick else 3, 'nprobes': 5 if quick else 10}, 'timeout': 400 if quick else 3000,
-                           'twin': pin == 7 and cfg == 'lalr-basic', 'bound': {'ops': 2 if quick else 3, 'op_kinds': 8, 'probes': 5 if quick else 10}})
+            slices.append({'id': 'hist:%s:ops<=%d:first%d' % (cfg, 3 if quick else 4, pin), 'func': 'hist',
+                           'params': {'kind': 'hist', 'cfg': cfg, 'pin': pin, 'maxops': 3 if quick else 4, 'nprobes': 10}, 'mode': 'realised', 'timeout': 400 if quick else 3000,
+                           'twin': pin == 7 and cfg == 'lalr-basic', 'bound': {'ops': 3 if quick else 4, 'op_kinds': 8, 'probes': 10}})
     # schedules: (configuration, pair of first calls, gap windows between consecutive context switches, in line steps)
     plans = [('basic-callbacks', [0, 1], [8, 40, 3]), ('basic-callbacks', [0, 2], [8, 40, 3]), ('basic-callbacks', [0, 1], [24, 24]),
              ('ctx-callbacks', [0, 1], [10, 30, 3]), ('ctx-callbacks', [1, 2], [24, 24]), ('earley-callbacks', [0, 1], [8, 40, 3])]
@@ -347,7 +347,7 @@ def plan(tier, seed):
         'technique': 'CrossHair symbolic execution of call histories on one instance; CrossHair-enumerated preemption-bounded thread schedules over a line-level stepper',
         'functions_encoded': ['lark.lark.Lark.parse/lex/scan/parse_interactive', 'ParsingFrontend._make_lexer_thread', 'LexerState', 'BasicLexer.scanner/search_scanner/_build_scanner/next_token',
                               'ContextualLexer.lex', 'Indenter.process', '_Parser.parse', 'lark.reconstruct.Reconstructor', 'lark.tree_matcher.TreeMatcher'],
-        'bounds': {'history_ops': 2 if quick else 3, 'context_switches': '2-3 (quick), up to 4 (thorough), inside the stated gap windows', 'threads': 2},
+        'bounds': {'history_ops': 3 if quick else 4, 'context_switches': '2-3 (quick), up to 4 (thorough), inside the stated gap windows', 'threads': 2},
         'outside_bounds': ['bytecode-level races inside one line', 'free-threaded builds', 'more than 2 threads / more switches', 'user callbacks with state'],
         'stubs_and_assumes': ['worker threads run untraced by CrossHair; only the schedule (switch positions) is symbolic', 'lexer_callbacks are pure functions'],
     }
